@@ -186,7 +186,7 @@ def run(ctx):
             okg = any(g.startswith("T:") and re.search(grx, g[2:]) for g in gl) or only_if_any_true(rd, c.bb, grx)
             res.check(okg, "R19.2", "section-guard|" + fn_, c.where(), "%s only on %s" % (fn_, grx), "%s rendered without its has-content guard (guards: %s)" % (fn_, gl))
     vs = [c for c in rd.calls_to(r"Option(<[^>]*>)?::or_else$") if expr(rd, c.args[0]) == "get_version(self.cmd)"]
-    res.check(bool(vs) and all(any(cb.calls_to(r"Command::get_long_version$") for cb in closure_bodies(fx, c)[-1:]) for c in vs), "R19.2", "predicate|app_has_version", rd.where(),
+    res.check(bool(vs) and all(any(cb.calls_to(r"Command::get_long_version$") for cb in own_closures(fx, c)) for c in vs), "R19.2", "predicate|app_has_version", rd.where(),
               "version section predicate = get_version().or_else(get_long_version).is_some()", "the version section predicate no longer consults get_long_version")
 
     # ---- R19.3 HIDE
@@ -243,7 +243,7 @@ def run(ctx):
     for n_, src in (("app_has_arguments", "get_arguments(self.cmd)"), ("app_has_subcommands", "get_subcommands(self.cmd)")):
         anyc = [c for c in rd.calls_to(r"Iterator>?::any$") if expr(rd, c.args[0]) == src]
         okp = len(anyc) == 1
-        cbs = closure_bodies(fx, anyc[0])[-1:] if anyc else []
+        cbs = own_closures(fx, anyc[0]) if anyc else []
         okc = bool(cbs) and all(re.fullmatch(r"Not\(is_hide_set\(\w+\)\)", expr(cb, 0)) and len([x for x in cb.calls() if not sp_macro(x.sp)]) == 1 for cb in cbs)
         res.check(okp and okc, "R19.2", "section-predicate|" + n_, rd.where(), "%s = any item is not hidden" % n_,
                   "the section predicate over %s is no longer `any(!is_hide_set)` (%s): a section with visible items can be skipped, those items are then named nowhere on the page" % (src, [expr(cb, 0)[:60] for cb in cbs]))
